@@ -38,6 +38,17 @@ func vecConfigs(typ string, n int, rich bool) []Desc {
 				L = append(L, Desc{Kind: "vector", Sto: sto, Typ: typ, N: n + 1, Mask: mk | 1<<n, Sl: []int{0, n}})
 			}
 		}
+		// zero-valued elements that carry derivative information only
+		if isReal(typ) {
+			mk := bits(n) & 0b0101
+			if n == 1 {
+				mk = 0
+			}
+			for dz := 1; dz <= 3; dz++ {
+				L = append(L, Desc{Kind: "vector", Sto: sto, Typ: typ, N: n, Mask: mk, Dz: dz})
+				L = append(L, Desc{Kind: "vector", Sto: sto, Typ: typ, N: n + 1, Mask: mk<<1 | 1, Dz: dz, Sl: []int{1, n + 1}})
+			}
+		}
 	}
 	return L
 }
@@ -64,6 +75,17 @@ func matConfigs(typ string, r, c int, rich bool) []Desc {
 				L = append(L, Desc{Kind: "matrix", Sto: sto, Typ: typ, R: c + 1, C: r + 1, Mask: big, Path: []Step{{Op: "S", A: [4]int{0, c, 0, r}}, {Op: "T"}}})
 			}
 		}
+		// zero-valued elements that carry derivative information only
+		if isReal(typ) {
+			mk := full & 0b101101
+			if r*c == 1 {
+				mk = 0
+			}
+			for dz := 1; dz <= 3; dz++ {
+				L = append(L, Desc{Kind: "matrix", Sto: sto, Typ: typ, R: r, C: c, Mask: mk, Dz: dz})
+				L = append(L, Desc{Kind: "matrix", Sto: sto, Typ: typ, R: c, C: r, Mask: mk, Dz: dz, Path: []Step{{Op: "T"}}})
+			}
+		}
 	}
 	return L
 }
@@ -75,6 +97,9 @@ func scalarConfigs(rich bool) []Desc {
 		if isReal(t) {
 			L = append(L, Desc{Kind: "scalar", Sto: "-", Typ: t, Val: 2, Order: 1})
 			L = append(L, Desc{Kind: "scalar", Sto: "-", Typ: t, Val: 2, Order: 2})
+			for dz := 1; dz <= 3; dz++ {
+				L = append(L, Desc{Kind: "scalar", Sto: "-", Typ: t, Val: 0, Dz: dz})
+			}
 		}
 	}
 	for _, t := range constTypeNames {
@@ -322,6 +347,23 @@ func storedEntries(d Desc, o any) int {
 
 var explicitZeroCreated = map[string]int64{}
 
+// refObs: the full observation (element reads AND const-iterator sequence) of a freshly built,
+// never operated-on instance of d and of its parent. build is deterministic, so this is what
+// an untouched operand looks like; taking it from a second instance keeps the iterator walk
+// (which compacts sparse containers) away from the operand before the operation under test.
+var refObsCache = map[string][2]string{}
+
+func refObs(d Desc) [2]string {
+	k := d.Kind + "|" + d.String()
+	if r, ok := refObsCache[k]; ok {
+		return r
+	}
+	w := build(d)
+	r := [2]string{obs(w.obj, true), obs(w.parent, true)}
+	refObsCache[k] = r
+	return r
+}
+
 func runRCase(cs RCase) (fails []failure, outcome string) {
 	recv := build(cs.Recv).obj
 	args := make([]any, len(cs.Args))
@@ -333,7 +375,8 @@ func runRCase(cs RCase) (fails []failure, outcome string) {
 			return nil, "operand-view-unbuildable"
 		}
 		args[i] = worlds[i].obj
-		before[i] = [2]string{obs(worlds[i].obj, true), obs(worlds[i].parent, true)}
+		// element reads only: see obsElems
+		before[i] = [2]string{obsElems(worlds[i].obj), obsElems(worlds[i].parent)}
 	}
 	entries := make([]int, len(cs.Args))
 	for i, d := range cs.Args {
@@ -367,7 +410,12 @@ func runRCase(cs RCase) (fails []failure, outcome string) {
 		if e := storedEntries(d, worlds[i].obj); e >= 0 && entries[i] >= 0 && e != entries[i] {
 			explicitZeroCreated[cs.Op+"|operand-"+string(rune('a'+i))]++
 		}
-		a0, a1 := obs(worlds[i].obj, true), obs(worlds[i].parent, true)
+		a0, a1 := obsElems(worlds[i].obj), obsElems(worlds[i].parent)
+		if a0 == before[i][0] && a1 == before[i][1] {
+			// then the full observation against an untouched instance
+			before[i] = refObs(d)
+			a0, a1 = obs(worlds[i].obj, true), obs(worlds[i].parent, true)
+		}
 		if a0 != before[i][0] || a1 != before[i][1] {
 			which := string(rune('a' + i))
 			key := fmt.Sprintf("readonly|%s|recv=%s|modified=%s:%s/%s", cs.Op, cs.Recv.Sto, which, d.Kind, argDesc(d))
